@@ -157,6 +157,23 @@ func (propC02) Gen(r *Rng, run uint64, tier string) *Plan {
 	for k := []int{0, 1, 1, 1, 2, 2, 3}[r.Intn(7)]; k > 0; k-- {
 		ms = append(ms, genMatcher(r.Sub(fmt.Sprint("m", k)), &p.World))
 	}
+	if ar := r.Sub("ambiguous-matchers"); ar.Bool(0.04) {
+		// Two matchers on one label whose label+operator+value texts concatenate to the
+		// same string: x=~"v" and x="~v" (no container satisfies the second unless a value
+		// starts with a tilde).
+		for try := 0; try < 12; try++ {
+			m := genMatcher(ar.SubN("try", uint64(try)), &p.World)
+			if m.Op != "=~" && m.Op != "!~" {
+				continue // only a value that was generated as a pattern is one
+			}
+			m.Op = "=~"
+			ms = append(ms, m, Matcher{Label: m.Label, Op: "=", Value: "~" + m.Value})
+			if ar.Bool(0.5) {
+				ms[len(ms)-1], ms[len(ms)-2] = ms[len(ms)-2], ms[len(ms)-1]
+			}
+			break
+		}
+	}
 	sel := SelectorString(ms)
 	p.Tags["matchers"] = mustJSON(ms)
 
@@ -187,6 +204,11 @@ func (propC02) Gen(r *Rng, run uint64, tier string) *Plan {
 		p.Tags["window_before_epoch"] = "1"
 	}
 	off := []int64{0, 0, 10 * sec, 60 * sec}[r.Intn(4)]
+	if r.Bool(0.02) {
+		// an offset of sixty-odd years: the whole window lies before 1970
+		off = int64(60*365*24*3600+r.Intn(100000)) * sec
+		p.Tags["window_before_epoch"] = "2"
+	}
 	kind := []string{"log_range", "log_range", "log_instant", "metric_range", "metric_instant", "metric_binop"}[r.Intn(6)]
 	var msB []Matcher
 	if kind == "metric_binop" {
